@@ -96,8 +96,8 @@ func (p *pktConnect) Pack() []byte {
 }
 
 func (c *BaseClient) init() {
-	c.sig = &signaller{}
 	c.mu.Lock()
+	c.sig = &signaller{chConnAck: make(chan *pktConnAck, 1)}
 	c.connClosed = make(chan struct{})
 	c.mu.Unlock()
 	c.initID()
@@ -131,10 +131,7 @@ func (c *BaseClient) Connect(ctx context.Context, clientID string, opts ...Conne
 		close(c.connClosed)
 	}()
 
-	chConnAck := make(chan *pktConnAck, 1)
-	c.mu.Lock()
-	c.sig.chConnAck = chConnAck
-	c.mu.Unlock()
+	chConnAck := c.sig.ConnAck()
 
 	pkt := (&pktConnect{
 		ProtocolLevel: o.ProtocolLevel,
